@@ -7,6 +7,6 @@ W=/tmp/trypatch-$ID-$$
 git -C /repo worktree add -q --detach $W HEAD || exit 3
 trap 'git -C /repo worktree remove --force $W >/dev/null 2>&1' EXIT
 git -C $W apply "$P" || { echo "patch does not apply"; exit 3; }
-VERIF_REPLAYDIR=$W/.verif-replays VERIF_REPO=$W /verif/check "$ID" "$TIER" -noevidence "$@" 2>&1 | grep -E "VIOLATION|KNOWN|OK property|INCONCLUSIVE|violation:" | head -12
+VERIF_REPLAYDIR=$W/.verif-replays VERIF_REPO=$W /verif/check "$ID" "$TIER" -noevidence "$@" 2>&1 | grep -E "VIOLATION|KNOWN|OK property|INCONCLUSIVE|violation:" | tail -n 12
 rc=${PIPESTATUS[0]}
 echo "exit=$rc"
